@@ -19,7 +19,8 @@ Inductive dop :=
 | DShutdownX                   (* Shutdown(ctx) whose ctx is done while the drain is blocked *)
 | DMode (ok : bool)            (* gate: following exports return nil / an error *)
 | DBlock                       (* gate: following exports block inside ExportSpans *)
-| DUnblock.                    (* gate: release the blocked export (returns nil); mode ok *)
+| DUnblock                     (* gate: release the blocked export (returns nil); mode ok *)
+| DWait.                       (* (short BatchTimeout) wait until the timer has exported what is batched *)
 
 Definition mu_free (s : state) : bool := match mu s with None => true | Some _ => false end.
 
@@ -119,6 +120,15 @@ Definition exec_op (c : config) (t : nat) (o : dop) (ms : emode * state) : optio
   | DMode ok => Some (if ok then MOk else MErr, s)
   | DBlock => Some (MBlock, s)
   | DUnblock => match settle (settle_fuel c) c MOk t s with Some s' => Some (MOk, s') | None => None end
+  | DWait =>
+      match settle (settle_fuel c) c m t s with
+      | None => None
+      | Some s1 =>
+          match step c s1 AWTimer with
+          | Some s2 => keep (settle (settle_fuel c) c m t s2)
+          | None => Some (m, s1)
+          end
+      end
   end.
 
 Fixpoint exec_ops (c : config) (t : nat) (ops : list dop) (ms : emode * state) : option (emode * state) :=
@@ -191,7 +201,11 @@ Definition spec_ok' (dobs : bool) (c : config) (h : history) : bool :=
 Inductive case :=
 | CDet (c : config) (dobs : bool) (ops : list dop)
        (rets : list ret) (batches : list (list id * nat)) (nsd : N) (h : history)
-| CFree (c : config) (dobs : bool) (h : history).
+| CFree (c : config) (dobs : bool) (h : history)
+(** deterministic program run with a short real BatchTimeout: the timer may cut batches anywhere,
+    so only the concatenation of the batches (FIFO, nothing lost or doubled), the returns and the
+    history are judged (one-sided w.r.t. timing) *)
+| CDetT (c : config) (dobs : bool) (ops : list dop) (rets : list ret) (ids : list id) (nsd : N) (h : history).
 
 Definition flag (b : bool) (code : N) : list N := if b then [] else [code].
 
@@ -213,6 +227,14 @@ Definition check_case (x : case) : list N :=
       | None => [V_MISMATCH]
       end ++ judge dobs c h
   | CFree c dobs h => judge dobs c h
+  | CDetT c dobs ops rets ids nsd h =>
+      match run_det c ops with
+      | Some s => flag (list_eqb ret_eqb (flat_map ev_ret (hist s)) rets &&
+                        ids_eqb (exported (hist s)) ids &&
+                        Nat.eqb (length (flat_map ev_expsd (hist s))) (N.to_nat nsd)) V_MISMATCH ++
+                  flag (spec_ok c (hist s)) V_MODELSPEC
+      | None => [V_MISMATCH]
+      end ++ judge dobs c h
   end.
 
 Definition run (cs : list case) : list (N * N) := index_from 0%N check_case cs.
